@@ -63,6 +63,7 @@ type Behaviour struct {
 	ID       string  `json:"id"`
 	Opt      Options `json:"opt"`
 	Lockstep bool    `json:"lockstep"`
+	Quiesce  int     `json:"quiesce"` // after the steps: this many rounds of "tick every node, deliver everything in flight"
 	Steps    []SStep `json:"steps"`
 }
 
@@ -210,6 +211,16 @@ func (c *Cluster) runBehaviour(b Behaviour) Result {
 				ab, _ := json.Marshal(a)
 				res.Action = string(ab)
 			}
+		}
+	}
+	for r := 0; r < b.Quiesce; r++ {
+		for _, n := range c.nodes {
+			if n.rn != nil {
+				c.Do(Event{Ev: "tick", Node: int(n.id)})
+			}
+		}
+		for k := len(c.bag); k > 0 && len(c.bag) > 0; k-- {
+			c.Do(Event{Ev: "deliver", A: 0})
 		}
 	}
 	res.LastLine = c.line
